@@ -264,6 +264,8 @@ class Check:
         self.assumptions = []
         self._distinct = set()
         self.notes = []
+        self._part = None         # name of the part being run (checks made of several levels, see run_parts)
+        self._parts = {}
         os.makedirs(os.path.join(OUT, "replay"), exist_ok=True)
         kf = os.path.join(ROOT, "known_findings.json")
         self.known = [k for k in json.load(open(kf))["findings"] if k["property"] == prop] if os.path.exists(kf) else []
@@ -299,7 +301,49 @@ class Check:
         json.dump(obj, open(path, "w"), indent=1)
         self.violations.append((path, no_input, what))
 
+    # ---- checks made of several parts (primitive level + generated-code level): each part is an ordinary
+    #      run function ending in chk.finish(); inside run_parts that call only stashes the part's coverage
+    PART_KEYS = ("rule", "obligations", "discharged", "theorems", "axioms", "checker_cmd", "distribution",
+                 "disagreements_checked", "model_impl_mismatches", "trusted_base", "exhaustive")
+
+    def run_parts(self, parts):
+        """parts: list of (name, fn(chk)); returns the exit code of the combined check"""
+        for name, fn in parts:
+            self._part = name
+            for k in ("rule", "distribution", "theorems", "axioms", "checker_cmd"):
+                self.cov.pop(k, None)
+            self.cov.update(obligations=0, discharged=0, disagreements_checked=0)
+            try:
+                fn(self)
+            except Exception as e:      # a part that crashes is a broken check, reported as such
+                import traceback
+                self.violation("part %s of the check crashed: %r" % (name, e),
+                               dict(kind="check-crash", part=name, traceback=traceback.format_exc()[-3000:]), no_input=True)
+                self._parts[name] = dict(rule="crashed")
+        self._part = None
+        ps = self._parts
+        self.cov["parts"] = ps
+        self.cov["rule"] = " || ".join("[%s] %s" % (n, ps[n].get("rule", "")) for n in ps)
+        self.cov["obligations"] = sum(ps[n].get("obligations", 0) for n in ps)
+        self.cov["discharged"] = sum(ps[n].get("discharged", 0) for n in ps)
+        self.cov["theorems"] = [t for n in ps for t in ps[n].get("theorems", [])]
+        self.cov["axioms"] = sorted(set(a for n in ps for a in ps[n].get("axioms", [])))
+        self.cov["checker_cmd"] = " ; ".join(ps[n].get("checker_cmd", "") for n in ps if ps[n].get("checker_cmd"))
+        self.cov["disagreements_checked"] = sum(ps[n].get("disagreements_checked", 0) for n in ps)
+        self.cov["model_impl_mismatches"] = sum(ps[n].get("model_impl_mismatches", 0) for n in ps)
+        tb = []
+        for n in ps:
+            for t in ps[n].get("trusted_base", []):
+                if t not in tb:
+                    tb.append(t)
+        self.cov["trusted_base"] = tb
+        self.cov.pop("distribution", None)
+        return self.finish()
+
     def finish(self):
+        if self._part is not None:
+            self._parts[self._part] = {k: self.cov[k] for k in self.PART_KEYS if k in self.cov}
+            return 1 if self.violations else 0
         self.cov["distinct_nontrivial"] = len(self._distinct)
         ev = dict(property_id=self.prop, tier=self.tier, seed=self.seed, level=self.level,
                   coverage=self.cov, assumptions=self.assumptions, wall_s=round(time.time() - self.t0, 2),
